@@ -596,6 +596,7 @@ def classify(ctx, cases, tag):
 
 def correspondence(ctx):
     basecorr.run(ctx)
+    __import__("rrgenlib").validate(ctx, sys.modules[__name__])     # translator tie (wt-trrule): Gen.* of Generated/RRuleKernels.lean vs the methods
     # shared-state audit: rrule._iter / _iterinfo write no attribute of the rule object other than _len, read only what
     # __init__ created, and build their iteration state (_iterinfo) locally — the model's `State` is per iterator
     # (C01.interleaved_iterators_independent).  A new site is a broken correspondence; the history stream then runs
